@@ -322,4 +322,16 @@ def sizeRacy (pre : List (Op × Obs)) (hist : List Call) : Bool :=
     let calls := hist.flatMap Call.parts
     linearizable calls.length st calls && !linearizableExactSize calls.length st calls
 
+/-- some accepted single-key write overlaps in time a range delete of the same key -/
+def hasWriteRacingDelete (hist : List Call) : Bool :=
+  let calls := hist.flatMap Call.parts
+  calls.any (racesDelete calls)
+
+/-- signature of the known finding `size-residue-racing-delete`: the contents are
+    linearizable, the sizes reported inside the block are not, and a write raced a range
+    delete of its key (DeleteRange measures the entry, a concurrent entry.add lands, the
+    difference that is subtracted no longer matches) -/
+def sizeResidueRacingDelete (pre : List (Op × Obs)) (hist : List Call) : Bool :=
+  sizeRacy pre hist && hasWriteRacingDelete hist
+
 end Influx.Spec.C09
